@@ -362,9 +362,9 @@ func join2(a, b string) string {
 // checkMemoKey: C02.R5 = C06.R4. K = context fields the memo key reads;
 // D = context fields the sanitizer choice reads; rule D ⊆ K.
 func checkMemoKey(p *Program, r *Report, rule string) {
-	mangle := p.Func("template", "mangle")
+	mangle := findMangle(p)
 	sfc := p.Func("template", "sanitizerForContext")
-	const c = "template.mangle#key-completeness"
+	const c = "template.mangle#key-completeness" // construct name kept stable across renames of the helper
 	if mangle == nil || sfc == nil {
 		r.Undec(rule, c, "", "anchor not found: mangle / sanitizerForContext")
 		return
